@@ -327,6 +327,7 @@ func (c *bgpController) syncBFDProfiles(profiles map[string]*config.BFDProfile) 
 }
 
 func (c *bgpController) SetBalancer(l log.Logger, name string, lbIPs []net.IP, pool *config.Pool, _ service, _ *v1.Service) error {
+	prevAds, hadAds := c.svcAds[name]
 	c.svcAds[name] = nil
 	for _, lbIP := range lbIPs {
 		for _, adCfg := range pool.BGPAdvertisements {
@@ -358,6 +359,15 @@ func (c *bgpController) SetBalancer(l log.Logger, name string, lbIPs []net.IP, p
 	}
 
 	if err := c.updateAds(); err != nil {
+		// The peers were not told. Go back to what is on record as told to them: the caller only
+		// withdraws services it has seen announced successfully, so advertisements left here by a
+		// failed first announcement would be published by the next update of any other service
+		// and never be withdrawn.
+		if hadAds {
+			c.svcAds[name] = prevAds
+		} else {
+			delete(c.svcAds, name)
+		}
 		return err
 	}
 
@@ -470,11 +480,18 @@ func adsForPeer(peerName string, ads []*bgp.Advertisement) []*bgp.Advertisement 
 }
 
 func (c *bgpController) DeleteBalancer(l log.Logger, name, reason string) error {
-	if _, ok := c.svcAds[name]; !ok {
+	ads, ok := c.svcAds[name]
+	if !ok {
 		return nil
 	}
 	delete(c.svcAds, name)
-	return c.updateAds()
+	if err := c.updateAds(); err != nil {
+		// The peers were not told: keep the advertisements on record, so that the
+		// retry of this deletion withdraws them again instead of finding nothing to do.
+		c.svcAds[name] = ads
+		return err
+	}
+	return nil
 }
 
 func (c *bgpController) SetNode(l log.Logger, node *v1.Node) error {
